@@ -3,8 +3,8 @@ from props._common import *  # noqa
 
 ID = 'C13'
 LEVEL = 'proof'
-FUNCTIONS = HUB + [M + 'extended_language_filter']
-SHARDS = {'match_selectors': 16, 'extended_language_filter': 8}
+FUNCTIONS = HUB + [M + 'extended_language_filter'] + LANG + [N + 'iter_attributes', N + 'get_parent', N + 'get_tag_children', N + 'has_html_ns', M + 'is_html_tag', M + 'get_tag', M + 'supports_namespaces']
+SHARDS = {'match_selectors': 16, 'extended_language_filter': 8, 'match_lang': 16}
 TIMEOUT_MS = {'quick': 30000, 'thorough': 120000}
 
 def _bt_lang_filter(ctx):
@@ -12,12 +12,16 @@ def _bt_lang_filter(ctx):
     return bounded_text.lang_filter(ctx)
 
 BOUNDED = [_bt_lang_filter, hub_bounded('C13-lang-hub', ['lang', 'basic', 'attrs', 'plain', 'ns', 'svghtml'], ['lang'])]
-TRUSTED = [A_PY, A_BS4, A_SMT, 'str.lower / str.split / re.sub are uninterpreted (the proof is about the matching loop on the split subtag lists); that stripping non-leading wildcards preserves RFC 4647 matching is bounded (exhaustive small scope)', 'match_lang (inherited language, meta fallback) is not yet under a discharged contract: bounded']
+TRUSTED = [A_PY, A_BS4, A_SMT, 'str.lower / str.split / re.sub are uninterpreted (the proof is about the matching loop on the split subtag lists); that stripping non-leading wildcards preserves RFC 4647 matching is bounded (exhaustive small scope)', A_SINGLE, 'split_namespace (getattr of a NamespacedAttribute key) is an assumed contract (A-bs4)']
 ASSUMPTIONS = TRUSTED
-EXPLANATION = ('Proved: the loop of extended_language_filter (incl. its try/except IndexError) equals the recursive transcription of RFC 4647 3.3.2 steps 2-3 on the split subtag lists, for all lists, and terminates. Bounded, exhaustive over all ranges/tags of up to 3 (4) subtags over a 5-symbol alphabet plus "*": extended_language_filter against an RFC 4647 reference; '
-               'the inherited language (nearest lang / xml:lang including lang="", meta fallback, iframe boundary) on the corpus. Proved: the hub requires match_lang for every compound.')
+EXPLANATION = ('Proved: match_lang returns sem_lang = "some range of every :lang() matches elem_lang(el)", where elem_lang is the nearest language attribute '
+               '(lang, or xml:lang outside the XHTML namespace in namespace-aware documents) on el or an ancestor within the same document, otherwise the '
+               'content-language pragma of html > head > meta of that document (HTML documents, or a detached XHTML html element), otherwise unknown: '
+               'all nine loops under invariants, termination of the ancestor walk by depth, the memo table of pragmas under the object invariant '
+               'lang_cache_ok (every stored pair is what meta_lang computes: C04.O3), snoc preservation by base/step lemmas. Proved: the loop of extended_language_filter (incl. its try/except IndexError) equals the recursive transcription of RFC 4647 3.3.2 steps 2-3 on the split subtag lists, for all lists, and terminates. Bounded, exhaustive over all ranges/tags of up to 3 (4) subtags over a 5-symbol alphabet plus "*": extended_language_filter against an RFC 4647 reference; '
+               'the inherited language (nearest lang / xml:lang including lang="", meta fallback, iframe boundary) again on the corpus by executing the same spec natively. Proved: the hub requires match_lang for every compound.')
 LEVEL_TEXT = EXPLANATION
-TECHNIQUE = 'contract-based deductive verification of the filtering loop (VCs from the real AST, z3) + bounded (exhaustive small scope) evaluation for wildcard stripping and the inherited language'
+TECHNIQUE = 'contract-based deductive verification of match_lang (inherited language, pragma fallback, memo table) and of the RFC 4647 filtering loop (VCs from the real AST, z3/cvc5) + bounded (exhaustive small scope) evaluation for wildcard stripping'
 MUSTFAIL_PER_FN = {'quick': 1, 'thorough': 6}
 
 
